@@ -1,5 +1,6 @@
 use std::collections::HashSet;
 
+use itertools::Itertools;
 use pretty::DocAllocator;
 use typst_syntax::{ast::*, SyntaxKind, SyntaxNode};
 
@@ -87,8 +88,9 @@ impl<'a> PrettyPrinter<'a> {
             && import_items_nodes.iter().all(|node| !contains_comment(node))
             && check_import_name_duplication(&import_items_nodes)
         {
-            // Sort import items by their text representation.
-            import_items_nodes.sort_by_key(|&node| node.clone().into_text());
+            // Sort import items by their text representation, regardless of the blanks inside.
+            import_items_nodes
+                .sort_by_key(|&node| node.clone().into_text().split_whitespace().join(" "));
         }
         // Note that `ImportItem` does not implement `AstNode`.
         ListStylist::new(self)
